@@ -42,6 +42,9 @@ theorem AllE.mono {S S' : Event → Prop} {evs : List Event} (h : AllE S evs) (h
 
 def IterOK (y : CEntry) : Prop := ∀ t, y.1 = CInstr.iterate t → 0 < t
 
+@[simp] theorem iterOK_unary (op : UnaryOperator) : IterOK (sp (unaryInstr op)) := by
+  cases op <;> simp [IterOK, sp, unaryInstr]
+
 @[simp] theorem allC_iterOK_keyStore (k : Option String) : AllC IterOK (keyStore k) := by
   cases k <;> simp [keyStore, IterOK, ns]
 
@@ -91,7 +94,7 @@ theorem iter_code_aux :
     arrayItemsCode, mapItemsCode] at *
   all_goals (try split)
   all_goals (try simp_all (config := { zetaDelta := true }) only [allC_append, allC_cons, allC_nil,
-    and_true, true_and, and_self, allC_iterOK_keyStore])
+    and_true, true_and, and_self, allC_iterOK_keyStore, iterOK_unary])
   all_goals (try (simp only [IterOK, sp, ns, mapBuild, arrayBuild, setInstr]; done))
   all_goals (try grind [IterOK, sp, ns, mapBuild, arrayBuild, setInstr])
 
@@ -111,6 +114,9 @@ def RefS (S : Event → Prop) (y : CEntry) : Prop :=
   | .renderBodyComponent n => S (.componentCall n)
   | .renderBlock n => ∃ c top, S (.blockDef n c top)
   | _ => True
+
+@[simp] theorem refS_unary (S) (op : UnaryOperator) : RefS S (sp (unaryInstr op)) := by
+  cases op <;> simp [RefS, sp, unaryInstr]
 
 @[simp] theorem allC_refS_keyStore (S) (k : Option String) : AllC (RefS S) (keyStore k) := by
   cases k <;> simp [keyStore, RefS, ns]
@@ -162,7 +168,7 @@ theorem refs_code_aux :
     optExprEvents, arrayItemsEvents, mapItemsEvents] at *
   all_goals (try split)
   all_goals (try simp_all (config := { zetaDelta := true }) only [allC_append, allC_cons, allC_nil,
-    allE_append, allE_cons, allE_nil, and_true, true_and, and_self, allC_refS_keyStore])
+    allE_append, allE_cons, allE_nil, and_true, true_and, and_self, allC_refS_keyStore, refS_unary])
   all_goals (try (simp only [RefS, sp, ns, mapBuild, arrayBuild, setInstr]; done))
   all_goals (try grind [RefS, sp, ns, mapBuild, arrayBuild, setInstr])
 
